@@ -218,8 +218,7 @@ func (r *Run) body(g *G, fn func()) {
 	// wait to be scheduled for the first time
 	<-g.ch
 	if r.aborting.Load() {
-		g.exiting = true
-		runtime.Goexit()
+		select {}
 	}
 	fn()
 }
@@ -341,9 +340,11 @@ func EnterNoYield() (*Run, *G) {
 // shim operations must then be no-ops.
 func (g *G) Dead() bool { return g.exiting }
 
+// die freezes the calling goroutine for good. Runs are one per OS process, so
+// nothing is torn down: unwinding (Goexit) would run the library's deferred
+// cleanup code outside the scheduler's control.
 func (r *Run) die(g *G) {
-	g.exiting = true
-	runtime.Goexit()
+	select {}
 }
 
 func (r *Run) yield(g *G, kind int, force bool) {
@@ -716,27 +717,8 @@ func (r *Run) loop() {
 		r.mu.Unlock()
 		g.ch <- struct{}{}
 	}
-	// abort: release everything that is parked so it can exit
+	// the run is over: every other goroutine stays parked (one run per process)
 	r.aborting.Store(true)
-	for round := 0; round < 50; round++ {
-		r.mu.Lock()
-		n := 0
-		for _, g := range r.all {
-			if g.state == gRunnable || g.state == gBlocked {
-				g.state = gRunning
-				select {
-				case g.ch <- struct{}{}:
-				default:
-				}
-				n++
-			}
-		}
-		r.mu.Unlock()
-		synctest.Wait()
-		if n == 0 {
-			break
-		}
-	}
 }
 
 // pick chooses the next token holder among cand (sorted by logical id).
